@@ -62,6 +62,11 @@ def canon_atom(e: ast.AST) -> Tuple[str, bool]:
     """(atom text, polarity) of a leaf condition; len(X) > 0, len(X), bool(X), X != [] ... are the truthiness of X"""
     if isinstance(e, ast.Call) and isinstance(e.func, ast.Name) and e.func.id in ("len", "bool") and len(e.args) == 1 and not e.keywords:
         return canon_atom(e.args[0])
+    if isinstance(e, ast.Compare) and len(e.ops) == 1 and isinstance(e.left, ast.Call) and isinstance(e.left.func, ast.Name) and e.left.func.id == "bool" and len(e.left.args) == 1 \
+            and isinstance(e.comparators[0], ast.Constant) and isinstance(e.comparators[0].value, bool) and isinstance(e.ops[0], (ast.Is, ast.IsNot, ast.Eq, ast.NotEq)):
+        a, pol = canon_atom(e.left.args[0])
+        same = isinstance(e.ops[0], (ast.Is, ast.Eq))
+        return a, (pol if (e.comparators[0].value == same) else not pol)
     if isinstance(e, ast.Compare) and len(e.ops) == 1:
         l, op, r = e.left, e.ops[0], e.comparators[0]
         if isinstance(l, ast.Call) and isinstance(l.func, ast.Name) and l.func.id == "len" and isinstance(r, ast.Constant) and isinstance(r.value, int):
